@@ -28,6 +28,7 @@ ProgsA2 == SeqsUpTo(OpsA, 2)
 OpsQ == {Resched, SleepN(1), SelT(2), SelFD("a", 1), Block, Raise, Call(<<SleepOp(1)>>, "ret"), Call(<<>>, "throw"),
          Call(<<SleepOp(1)>>, "throw")}
 ProgsQ1 == SeqsUpTo(OpsQ, 1)
+ProgsLv == SeqsUpTo({Resched, SleepN(1), SelT(2), SelFD("a", 1), Block, Call(<<SleepOp(1)>>, "ret")}, 1)
 ProgsQ2 == SeqsUpTo(OpsQ, 2)
 \* socket helpers: Recv with/without timeout; Send with per-call socket outcomes (F full, P partial, B would block)
 OpsIO == {Recv("a", NoTO), Recv("a", 1), Send(<<Ck("F")>>), Send(<<Ck("P"), Ck("F")>>), Send(<<Ck("B"), Ck("F")>>),
